@@ -172,49 +172,130 @@ def dateOfSerial (is1904 : Bool) (n : Int) : Date := civilOfDays (dayNumber is19
 def datetimeOfSerial (is1904 : Bool) (n : Int) : Option DateTime :=
   asDatetimeOfMs (.ms (msOfWholeDay is1904 n))
 
+/-! ### serials, with the date system INSIDE the model
+
+The serial of a cell is an `f64`.  The model keeps everything about it that is integer-exact and
+takes from outside only what the float rounding decides:
+
+* `whole n` — an integer-valued serial with |n| ≤ 10^8.  Every number the float step touches is
+  then an integer below 2^53 (`whole_days_exact`), so the step is computed here, exactly.
+* `frac day r1900 r1904 rDur` — a non-integer serial with |value| < 10^8: `day = ⌊value⌋`
+  (exact), and the ROUNDED millisecond-of-day of the fractional part, `0 ..= 86 400 000`
+  (86 400 000 = rounded up to the next midnight), as the real float expression produced it on
+  each of the three paths (date step in the 1900 system, in the 1904 system, duration step; they
+  can differ by a millisecond near a rounding tie).  The harness computes them as
+  `M mod 86 400 000` (resp. 86 400 000 when the fraction is ≥ ½ and the remainder wrapped) from
+  the outcome `M` of the float expression — it never tells the model which day or which system.
+* `raw m1900 m1904 mDur` — everything else (NaN, ±∞, |value| > 10^8): the outcome of the float
+  step on each path, opaque as in `MsIn`.
+
+Which path is taken, the 1462-day offset and the leap-year shim are decided HERE from the cell's
+flag (`dayNumber`). -/
+
+inductive Serial where
+  | whole (n : Int) : Serial
+  | frac (day : Int) (r1900 r1904 rDur : Nat) : Serial
+  | raw (m1900 m1904 mDur : MsIn) : Serial
+  deriving DecidableEq, Repr
+
+/-- the date float step `round((value [+ 1462] [+ 1]) * 86 400 000)` of `as_datetime` -/
+def dateStep (is1904 : Bool) : Serial → MsIn
+  | .whole n => .ms (dayNumber is1904 n * 86400000)
+  | .frac day r0 r4 _ => .ms (dayNumber is1904 day * 86400000 + (if is1904 then r4 else r0))
+  | .raw m0 m4 _ => if is1904 then m4 else m0
+
+/-- the duration float step `round(value * 86 400 000)` of `as_duration` (no offset, no shim) -/
+def durStep : Serial → MsIn
+  | .whole n => .ms (n * 86400000)
+  | .frac day _ _ rd => .ms (day * 86400000 + rd)
+  | .raw _ _ md => md
+
+/-- `ExcelDateTimeType` -/
+inductive Kind where
+  | dateTime : Kind
+  | timeDelta : Kind
+  deriving DecidableEq, Repr
+
+/-- `ExcelDateTime::as_datetime` of `ExcelDateTime { value, datetime_type, is_1904 }`
+    (the type flag is not consulted) -/
+def edtAsDatetime (s : Serial) (is1904 : Bool) : Option DateTime := asDatetimeOfMs (dateStep is1904 s)
+
+/-- `ExcelDateTime::as_duration` (neither flag is consulted) -/
+def edtAsDuration (s : Serial) : Option Int := durationOfMs (durStep s)
+
+/-- milliseconds since midnight -/
+def Time.toMs (t : Time) : Nat := ((t.h * 60 + t.mi) * 60 + t.s) * 1000 + t.ms
+
 /-! ### trait level: `DataType::{as_datetime, as_date, as_time, as_duration}` for `Data`/`DataRef`
 
-A cell is reduced to what the conversions look at.  ISO strings are parsed by chrono
-(`NaiveDateTime::from_str` …), which is not modelled; they are exercised by the harness only. -/
+A cell is reduced to what the conversions look at.  ISO strings are parsed by chrono, which is
+not modelled: an ISO cell carries the outcomes of the chrono parsers the code calls on its text
+(`NaiveDateTime::from_str`, `NaiveDate::from_str`, `NaiveTime::from_str`; for durations
+`NaiveTime::parse_from_str(s, "PT%HH%MM%S%.fS")`), and the model is the branching around them. -/
 
 inductive Cell where
-  /-- `Int(i)` / `Float(f)`: `msDt` is the float step of `ExcelDateTime::from_value_only(f)`
-      (1900 system) -/
-  | num (msDt : MsIn) : Cell
-  /-- `DateTime(ExcelDateTime)`: `msDt` is the date float step under the value's own `is_1904`
-      flag, `msDur` the duration float step.  The `datetime_type` flag is not consulted. -/
-  | dateTime (msDt : MsIn) (msDur : MsIn) : Cell
+  /-- `Int(n)`: the serial is `n as f64` (sent as `int` only for |n| ≤ 10^8, where that is exact) -/
+  | int (n : Int) : Cell
+  /-- `Float(value)` -/
+  | float (s : Serial) : Cell
+  /-- `DateTime(ExcelDateTime { value, datetime_type, is_1904 })` -/
+  | dateTime (s : Serial) (is1904 : Bool) (kind : Kind) : Cell
+  /-- `DateTimeIso(text)` with the three parser outcomes on `text` -/
+  | dateTimeIso (pdt : Option DateTime) (pd : Option Date) (pt : Option Time) : Cell
+  /-- `DurationIso(text)` with the outcome of the `PT…H…M…S` time parser -/
+  | durationIso (pt : Option Time) : Cell
   /-- `String`, `Bool`, `Error`, `Empty` -/
   | other : Cell
   deriving DecidableEq, Repr
 
-/-- `DataType::as_datetime` -/
+/-- `DataType::as_datetime`: `Int`/`Float` go through `ExcelDateTime::from_value_only`, i.e. the
+    1900 system; a `DateTime` cell uses its own flag; ISO text is parsed -/
 def Cell.asDatetime : Cell → Option DateTime
-  | .num msDt => asDatetimeOfMs msDt
-  | .dateTime msDt _ => asDatetimeOfMs msDt
+  | .int n => edtAsDatetime (.whole n) false
+  | .float s => edtAsDatetime s false
+  | .dateTime s is1904 _ => edtAsDatetime s is1904
+  | .dateTimeIso pdt _ _ => pdt
+  | .durationIso _ => none
   | .other => none
 
-/-- `DataType::as_date` (non-ISO branch): `self.as_datetime().map(|dt| dt.date())` -/
-def Cell.asDate (c : Cell) : Option Date := c.asDatetime.map (·.date)
+/-- `DataType::as_date` -/
+def Cell.asDate (c : Cell) : Option Date :=
+  match c with
+  | .dateTimeIso _ pd _ =>
+    match c.asDatetime with
+    | some dt => some dt.date
+    | none => pd
+  | _ => c.asDatetime.map (·.date)
 
-/-- `DataType::as_time` (non-ISO branch): `self.as_datetime().map(|dt| dt.time())` -/
-def Cell.asTime (c : Cell) : Option Time := c.asDatetime.map (·.time)
+/-- `DataType::as_time` -/
+def Cell.asTime (c : Cell) : Option Time :=
+  match c with
+  | .dateTimeIso _ _ pt =>
+    match c.asDatetime with
+    | some dt => some dt.time
+    | none => pt
+  | .durationIso pt => pt
+  | _ => c.asDatetime.map (·.time)
 
-/-- `DataType::as_duration`: only `DateTime` cells (and ISO durations, not modelled) convert -/
-def Cell.asDuration : Cell → Option Int
-  | .dateTime _ msDur => durationOfMs msDur
+/-- `DataType::as_duration` in milliseconds: `DateTime` cells (whatever their type flag) and ISO
+    durations (the parsed time of day as a span); nothing else -/
+def Cell.asDuration (c : Cell) : Option Int :=
+  match c with
+  | .dateTime s _ _ => edtAsDuration s
+  | .durationIso _ => c.asTime.map (fun t => (t.toMs : Int))
   | _ => none
 
 /-- What the serde helpers `deserialize_as_{datetime,date,time,duration}_or_{none,string}`
     (src/lib.rs) convert: they first rebuild a `Data` with `Data::deserialize`, and the cell
     deserializer's `deserialize_any` hands a `DateTime(v)` cell over as the bare `f64`
     (`visit_f64(v.as_f64())`), i.e. as a plain `Float` — the date-system flag and the fact that
-    it was a date-time are gone.  `ms1900` is the date float step of the same value in the 1900
-    system.  (ISO strings arrive as plain `String`s, i.e. `other`.) -/
-def Cell.viaSerde (c : Cell) (ms1900 : MsIn) : Cell :=
-  match c with
-  | .num m => .num m
-  | .dateTime _ _ => .num ms1900
+    it was a date-time are gone — and ISO cells as their text (`visit_str`), i.e. as a `String`. -/
+def Cell.viaSerde : Cell → Cell
+  | .int n => .int n
+  | .float s => .float s
+  | .dateTime s _ _ => .float s
+  | .dateTimeIso _ _ _ => .other
+  | .durationIso _ => .other
   | .other => .other
 
 end Dates
